@@ -354,6 +354,10 @@ def corpus_C01(tier):
                     smallbounds=bool(j % 2 == 0), roundout=bool(j % 4 == 0))
         if j % 8 == 0:
             inst.update(prob="target", m=inst["n"], tgtonbound=True)     # zero residual at a point on the bounds: 'objective is sufficiently small' at a trial point
+        elif j % 5 == 1:
+            # the same digit-dependent class under every kind of restart: each of the three calls of solve_main (first run, hard restart re-using r0,
+            # hard restart re-evaluating its start) and the soft-restart steps must hand on-bound points to the objective unrounded
+            inst.update(restarts=["hardnew", "hard", "soft", "hardnew"][(j // 5) % 4], maxunsucc=2, maxfun=90, rhoend=1e-2)
         out.append(inst)
     return out
 
